@@ -154,15 +154,25 @@ def minimise(U, L, fb, ops, cls):
     return fb, ops
 
 
-def report(ctx, U, L, fb, ops, cls, seen):
-    first = min(s for c, _, s in run_case(U, L, fb, ops=ops)["findings"] if c == cls)
-    fb2, ops2 = minimise(U, L, fb, ops[:first], cls)
+def report(ctx, U, L, fb, ops, cls, seen, found_text=None):
+    """minimise and report; a failure that does not reproduce when the case is run again (e.g. one that depends on the clock) is
+    reported as it was observed"""
+    again = [s for c, _, s in run_case(U, L, fb, ops=ops)["findings"] if c == cls]
+    fb2, ops2, text = fb, ops, found_text
+    if again:
+        fb2, ops2 = minimise(U, L, fb, ops[:min(again)], cls)
+        r = run_case(U, L, fb2, ops=ops2)
+        texts = [t for c, t, s in r["findings"] if c == cls]
+        if texts:
+            text = texts[-1]
+        else:
+            fb2, ops2 = fb, ops
+    if text is None:
+        return
     key = "ov:%s%s:fb=%s:h=%s:%s" % (U, L, ",".join(fb2), Y.enc_ops(ops2), cls)
     if key in seen:
         return
     seen.add(key)
-    r = run_case(U, L, fb2, ops=ops2)
-    text = [t for c, t, s in r["findings"] if c == cls][-1]
     what = "OverlayStore(%s over %s), fall-back {%s}; %s; then %s" % (
         {"M": "MemoryStore", "F": "FileStore"}[U], {"M": "MemoryStore", "F": "FileStore"}[L], ", ".join(fb2), Y.show_hist(ops2), text)
     ctx.violation(key, what, dict(kind="ov", U=U, L=L, fb=fb2, ops=[Y.op_json(o) for o in ops2], cls=cls))
@@ -205,7 +215,7 @@ def run(ctx):
                 n = classes.get(cls, 0)
                 classes[cls] = n + 1
                 if n < 2:
-                    report(ctx, U, L, fb, r["ops"], cls, seen)
+                    report(ctx, U, L, fb, r["ops"], cls, seen, found_text=[t for c, t, _ in r["findings"] if c == cls][-1])
         rounds += 1
         if rounds > per_cfg or time.time() - t0 > budget:
             break
@@ -233,7 +243,7 @@ def search(ctx, broken, disagreements):
         r = run_case(U, L, fb, rng=ctx.rng, length=12)
         ctx.case(None)
         for cls in sorted({c for c, _, _ in r["findings"]}):
-            report(ctx, U, L, fb, r["ops"], cls, seen)
+            report(ctx, U, L, fb, r["ops"], cls, seen, found_text=[t for c, t, _ in r["findings"] if c == cls][-1])
     ctx.notes.append("search: extra random histories of length 12 over all role/fall-back configurations")
 
 
